@@ -92,6 +92,10 @@ def gen_plan(seed, tier):
         st["flags"] &= ~W.FF_CHECK_OVERLAP
       if cmd in (W.FC_DELETE, W.FC_DELETE_STRICT) and r.chance(0.35):
         st["out_port"] = r.randint(1, nports)
+      elif r.chance(0.15):
+        # out_port only filters DELETE / DELETE_STRICT; ADD and MODIFY must
+        # ignore it
+        st["out_port"] = r.randint(1, nports)
       steps.append(st)
     elif k == "frame":
       fs, port = r.pick(base)
